@@ -41,10 +41,13 @@ CONSTANTS Ptrs,      \* pointer registers; "p" is one of them
           PvInState, \* TRUE: the pointer assignment is part of the state (generator configs)
           Gen        \* TRUE: print complete behaviours (generator configs)
 
-DeltasSmall == -5..5      \* cfg files cannot contain negative numbers
+DeltasSmall == -3..3      \* cfg files cannot contain negative numbers
 DeltasMid   == -6..6
 DeltasWide  == -9..9
 OffsNeg     == -2..3
+EnsLE       == {1}
+EnsBE       == {-1}
+EnsBoth     == {1, -1}
 QAsIs       == AsIs
 AllClauses  == {"SymLoads", "SymMemory", "InstLoads", "InstMemory"}
 SymClauses  == {"SymLoads", "SymMemory"}
@@ -98,7 +101,7 @@ ProbeOps == IF Probe THEN {[o |-> "ld", p |-> p, off |-> off, n |-> n, dst |-> "
 Verdict ==
   LET m   == SymRun(EmptyMs, prog, Q, cf)
       um  == Use(m, Q, cf)
-      pvl == [pr \in ProbeOps |-> MGet(um, MLoc(SymB(pr.p), pr.off), pr.n, cf.en, Q, cf)]   \* m(mem(..)) for every probe
+      pvl == [pr \in ProbeOps |-> LoadValU(m, um, MLoc(SymB(pr.p), pr.off), pr.n, Q, cf)]   \* m(mem(..)) for every probe
       c0  == BuildC(S0(<<>>), Q, cf)
       cu  == [c |-> c0, u |-> Use(c0, Q, cf)]
       inst == Clauses \cap {"InstLoads", "InstMemory"} # {}
